@@ -491,6 +491,8 @@ impl FileMetaStore {
             d_engine_core::verif::point("meta_save:after_flush", Some(&verif_path), 0, 0);
             drop(file);
             fs::rename(&tmp_path, &final_path)?;
+            #[cfg(d_engine_verif)]
+            d_engine_core::verif::point("meta_save:after_rename", Some(&verif_path), 0, 0);
         }
 
         Ok(())
